@@ -210,6 +210,13 @@ def combine (vs : List String) : String :=
   | some v => v
   | Option.none => "ok"
 
+/-- Oracle for ScrollDown / ScrollUp: the offset moves by exactly one line (so that every line can be brought to the
+    top by scrolling: "presents every line"); `before` = the offset the implementation reported last. -/
+def pgScrollVerdict (before : Int) (delta : Int) (impl : String) : String :=
+  match (kv "off" (fields impl)).bind (·.toInt?) with
+  | some o => if o = before + delta then "ok" else s!"FAIL scrolling by one line moved the offset from {before} to {o}"
+  | Option.none => "FAIL Scroll panicked or unparsable result"
+
 def pgStep (s : Pager.St) (lastW : Int) (fresh : Bool) (op : List String) (impl : String) : W × String :=
   match op with
   | "text" :: toks =>
@@ -240,8 +247,12 @@ def pgStep (s : Pager.St) (lastW : Int) (fresh : Bool) (op : List String) (impl 
         | _, _, _ => "FAIL Draw panicked or unparsable result"
       (.pg s' w fresh', s!"{mc}\t{impl}\t{v}")
     | _, _ => (.dead, bad)
-  | ["down"] => let s' := Pager.scrollDown s; (.pg s' lastW fresh, s!"off={s'.offset}{pgInterp WidExec.genB.pagerScrollDown s 0 0 s' Option.none}\t{impl}\t-")
-  | ["up"] => let s' := Pager.scrollUp s; (.pg s' lastW fresh, s!"off={s'.offset}{pgInterp WidExec.genB.pagerScrollUp s 0 0 s' Option.none}\t{impl}\t-")
+  | ["down"] =>
+    let s' := Pager.scrollDown s
+    (.pg s' lastW fresh, s!"off={s'.offset}{pgInterp WidExec.genB.pagerScrollDown s 0 0 s' Option.none}\t{impl}\t{pgScrollVerdict s.offset 1 impl}")
+  | ["up"] =>
+    let s' := Pager.scrollUp s
+    (.pg s' lastW fresh, s!"off={s'.offset}{pgInterp WidExec.genB.pagerScrollUp s 0 0 s' Option.none}\t{impl}\t{pgScrollVerdict s.offset (-1) impl}")
   | ["off", k] =>
     match k.toInt? with
     | some k => (.pg { s with offset := k } lastW fresh, s!"off={k}\t{impl}\t-")
